@@ -177,7 +177,7 @@ class RegexVM:
         pc: int,
         sp: int,
         captures: List[List[int]],
-        end_pos: Optional[int] = None,
+        backward: bool = False,
     ) -> Optional[Tuple[int, List[List[int]]]]:
         """
         Run the bytecode from pc at string position sp.
@@ -186,8 +186,12 @@ class RegexVM:
         lookahead/lookbehind assertions all run here, so every instruction means
         the same thing wherever it appears. Returns (position, captures) when a
         MATCH / LOOKAHEAD_END / LOOKBEHIND_END is reached, None when every
-        alternative failed. A lookbehind body must end exactly at end_pos.
+        alternative failed. A lookbehind body is compiled right-to-left and run
+        with backward=True: character instructions then consume the character
+        before the position and move left (ECMAScript's direction -1).
         """
+        step = -1 if backward else 1
+
         # Registers for position tracking (ReDoS protection)
         registers: List[int] = []
 
@@ -230,20 +234,20 @@ class RegexVM:
             # Execute instruction
             if opcode == Op.CHAR:
                 char_code = instr[1]
-                if sp >= len(string):
+                if (sp <= 0 if backward else sp >= len(string)):
                     if not stack:
                         return None
                     pc, sp, captures, registers = self._backtrack(stack)
                     continue
 
-                ch = string[sp]
+                ch = string[sp - 1 if backward else sp]
                 if self.ignorecase:
                     match = ord(ch.lower()) == char_code or ord(ch.upper()) == char_code
                 else:
                     match = ord(ch) == char_code
 
                 if match:
-                    sp += 1
+                    sp += step
                     pc += 1
                 else:
                     if not stack:
@@ -251,86 +255,86 @@ class RegexVM:
                     pc, sp, captures, registers = self._backtrack(stack)
 
             elif opcode == Op.DOT:
-                if sp >= len(string) or string[sp] in LINE_TERMINATORS:
+                if (sp <= 0 if backward else sp >= len(string)) or string[sp - 1 if backward else sp] in LINE_TERMINATORS:
                     if not stack:
                         return None
                     pc, sp, captures, registers = self._backtrack(stack)
                     continue
-                sp += 1
+                sp += step
                 pc += 1
 
             elif opcode == Op.ANY:
-                if sp >= len(string):
+                if (sp <= 0 if backward else sp >= len(string)):
                     if not stack:
                         return None
                     pc, sp, captures, registers = self._backtrack(stack)
                     continue
-                sp += 1
+                sp += step
                 pc += 1
 
             elif opcode == Op.DIGIT:
-                if sp >= len(string) or not string[sp].isdigit():
+                if (sp <= 0 if backward else sp >= len(string)) or not string[sp - 1 if backward else sp].isdigit():
                     if not stack:
                         return None
                     pc, sp, captures, registers = self._backtrack(stack)
                     continue
-                sp += 1
+                sp += step
                 pc += 1
 
             elif opcode == Op.NOT_DIGIT:
-                if sp >= len(string) or string[sp].isdigit():
+                if (sp <= 0 if backward else sp >= len(string)) or string[sp - 1 if backward else sp].isdigit():
                     if not stack:
                         return None
                     pc, sp, captures, registers = self._backtrack(stack)
                     continue
-                sp += 1
+                sp += step
                 pc += 1
 
             elif opcode == Op.WORD:
-                if sp >= len(string) or not (string[sp].isalnum() or string[sp] == "_"):
+                if (sp <= 0 if backward else sp >= len(string)) or not (string[sp - 1 if backward else sp].isalnum() or string[sp - 1 if backward else sp] == "_"):
                     if not stack:
                         return None
                     pc, sp, captures, registers = self._backtrack(stack)
                     continue
-                sp += 1
+                sp += step
                 pc += 1
 
             elif opcode == Op.NOT_WORD:
-                if sp >= len(string) or (string[sp].isalnum() or string[sp] == "_"):
+                if (sp <= 0 if backward else sp >= len(string)) or (string[sp - 1 if backward else sp].isalnum() or string[sp - 1 if backward else sp] == "_"):
                     if not stack:
                         return None
                     pc, sp, captures, registers = self._backtrack(stack)
                     continue
-                sp += 1
+                sp += step
                 pc += 1
 
             elif opcode == Op.SPACE:
-                if sp >= len(string) or not string[sp].isspace():
+                if (sp <= 0 if backward else sp >= len(string)) or not string[sp - 1 if backward else sp].isspace():
                     if not stack:
                         return None
                     pc, sp, captures, registers = self._backtrack(stack)
                     continue
-                sp += 1
+                sp += step
                 pc += 1
 
             elif opcode == Op.NOT_SPACE:
-                if sp >= len(string) or string[sp].isspace():
+                if (sp <= 0 if backward else sp >= len(string)) or string[sp - 1 if backward else sp].isspace():
                     if not stack:
                         return None
                     pc, sp, captures, registers = self._backtrack(stack)
                     continue
-                sp += 1
+                sp += step
                 pc += 1
 
             elif opcode == Op.RANGE:
                 ranges = instr[1]
-                if sp >= len(string):
+                if (sp <= 0 if backward else sp >= len(string)):
                     if not stack:
                         return None
                     pc, sp, captures, registers = self._backtrack(stack)
                     continue
 
-                ch = string[sp]
+                ch = string[sp - 1 if backward else sp]
                 ch_code = ord(ch.lower() if self.ignorecase else ch)
 
                 matched = False
@@ -350,7 +354,7 @@ class RegexVM:
                             break
 
                 if matched:
-                    sp += 1
+                    sp += step
                     pc += 1
                 else:
                     if not stack:
@@ -359,13 +363,13 @@ class RegexVM:
 
             elif opcode == Op.RANGE_NEG:
                 ranges = instr[1]
-                if sp >= len(string):
+                if (sp <= 0 if backward else sp >= len(string)):
                     if not stack:
                         return None
                     pc, sp, captures, registers = self._backtrack(stack)
                     continue
 
-                ch = string[sp]
+                ch = string[sp - 1 if backward else sp]
                 ch_code = ord(ch.lower() if self.ignorecase else ch)
 
                 matched = False
@@ -375,7 +379,7 @@ class RegexVM:
                         break
 
                 if not matched:
-                    sp += 1
+                    sp += step
                     pc += 1
                 else:
                     if not stack:
@@ -488,14 +492,15 @@ class RegexVM:
                     continue
 
                 captured = string[start:end]
-                if sp + len(captured) > len(string):
+                lo = sp - len(captured) if backward else sp
+                if lo < 0 or lo + len(captured) > len(string):
                     if not stack:
                         return None
                     pc, sp, captures, registers = self._backtrack(stack)
                     continue
 
-                if string[sp : sp + len(captured)] == captured:
-                    sp += len(captured)
+                if string[lo : lo + len(captured)] == captured:
+                    sp += step * len(captured)
                     pc += 1
                 else:
                     if not stack:
@@ -516,14 +521,15 @@ class RegexVM:
                     continue
 
                 captured = string[start:end]
-                if sp + len(captured) > len(string):
+                lo = sp - len(captured) if backward else sp
+                if lo < 0 or lo + len(captured) > len(string):
                     if not stack:
                         return None
                     pc, sp, captures, registers = self._backtrack(stack)
                     continue
 
-                if string[sp : sp + len(captured)].lower() == captured.lower():
-                    sp += len(captured)
+                if string[lo : lo + len(captured)].lower() == captured.lower():
+                    sp += step * len(captured)
                     pc += 1
                 else:
                     if not stack:
@@ -603,13 +609,6 @@ class RegexVM:
                     pc, sp, captures, registers = self._backtrack(stack)
 
             elif opcode == Op.LOOKBEHIND_END:
-                if end_pos is not None and sp != end_pos:
-                    # The body matched but does not end where the assertion
-                    # stands: try the remaining alternatives
-                    if not stack:
-                        return None
-                    pc, sp, captures, registers = self._backtrack(stack)
-                    continue
                 return sp, captures
 
             elif opcode == Op.SET_POS:
@@ -687,19 +686,15 @@ class RegexVM:
         start_pc: int,
         input_captures: List[List[int]],
     ) -> Optional[List[List[int]]]:
-        """Run a lookbehind body so that it ends exactly at end_pos.
+        """Run a lookbehind body leftwards from end_pos.
 
-        Every start position is tried, nearest first. Returns the captures of
-        the successful attempt, None if there is none.
+        Returns the captures of the successful attempt, None if there is none.
         """
-        for start_pos in range(end_pos, -1, -1):
-            result = self._run(
-                string,
-                start_pc,
-                start_pos,
-                [c.copy() for c in input_captures],
-                end_pos,
-            )
-            if result is not None:
-                return result[1]
-        return None
+        result = self._run(
+            string,
+            start_pc,
+            end_pos,
+            [c.copy() for c in input_captures],
+            backward=True,
+        )
+        return None if result is None else result[1]
